@@ -4,6 +4,7 @@
   lemma takes any offset spelling the relaxed reader accepts: `z`, `Z`, `UTC`, `utc`, `+hh:mm`).
 -/
 import Chrono.Proofs.TextFormsZonedL
+import Chrono.Proofs.RoundTripItemsL
 namespace Chrono.Proofs.TextFormsMore
 open Chrono Chrono.M Chrono.M.Scan Chrono.M.Format Chrono.M.TextForms
 open Chrono.Proofs Chrono.Proofs.TextForms Chrono.Proofs.RenderScan Chrono.Spec Chrono.Spec.Text
@@ -97,5 +98,58 @@ theorem time_debug_leap_off_59 (t : Time) (ht : TValid t) (hl : t.frac ≥ 10000
   have e2 : (t.secs + 1) / 60 % 60 = t.secs / 60 % 60 := by omega
   have e3 : (t.secs + 1) % 60 = t.secs % 60 + 1 := by omega
   rw [e1, e2, e3, if_pos hl, if_pos hl, if_neg (by omega), if_neg (by omega)]
+
+/-! ### outside the side condition: an offset with a seconds part -/
+
+/-- `FixedOffset`'s text for an offset that is not a whole minute: `±hh:mm:ss` -/
+theorem offset_debug_with_seconds (off : Int) (h : -86400 < off ∧ off < 86400) (hs : off % 60 ≠ 0) :
+    offset_debug off = (if off < 0 then 45 else 43) ::
+      (two (off.natAbs / 3600) ++ (58 :: (two (off.natAbs / 60 % 60) ++ (58 :: two (off.natAbs % 60))))) := by
+  unfold offset_debug fixedOffsetName
+  dsimp only
+  generalize ha : (if off < 0 then -off else off) = a
+  have ha0 : 0 ≤ a ∧ a < 86400 := by rw [← ha]; split <;> omega
+  have hn : (off.natAbs : Int) = a := by rw [← ha]; split <;> omega
+  have hsec : ¬ a % 60 = 0 := by rw [← ha]; split <;> omega
+  rw [if_neg hsec, fmtInt_eq_decN _ 2 (by omega) (by omega) (by norm_num; omega),
+    fmtInt_eq_decN _ 2 (by omega) (by omega) (by norm_num; omega),
+    fmtInt_eq_decN _ 2 (by omega) (by omega) (by norm_num; omega),
+    decN_two _ (by omega), decN_two _ (by omega), decN_two _ (by omega)]
+  have e1 : (a / 60 / 60).toNat = off.natAbs / 3600 := by omega
+  have e2 : (a / 60 % 60).toNat = off.natAbs / 60 % 60 := by omega
+  have e3 : (a % 60).toNat = off.natAbs % 60 := by omega
+  rw [e1, e2, e3]
+  simp only [List.append_assoc, List.cons_append, List.nil_append]
+
+/-- … and `FixedOffset::from_str` of that text stops after the minutes (what follows the offset is not
+looked at): it returns the offset truncated to a whole minute -/
+theorem offset_with_seconds_reads_truncated (off : Int) (h : -86400 < off ∧ off < 86400) (hs : off % 60 ≠ 0) :
+    offset_from_str (offset_debug off) =
+      .ok (if off < 0 then -((off.natAbs : Int) - (off.natAbs : Int) % 60)
+           else (off.natAbs : Int) - (off.natAbs : Int) % 60) := by
+  rw [offset_debug_with_seconds off h hs]
+  unfold offset_from_str
+  have hsg : (if off < 0 then 45 else 43 : Nat) = 43 ∨ (if off < 0 then 45 else 43 : Nat) = 45 := by
+    split <;> simp
+  have := Chrono.Proofs.RoundTrip.tzoffset_cos (if off < 0 then 45 else 43) hsg (off.natAbs / 3600)
+    (off.natAbs / 60 % 60) (by omega) (by omega) [58] (Or.inr rfl) (58 :: two (off.natAbs % 60)) false true
+  simp only [List.cons_append, List.nil_append] at this
+  rw [this]
+  dsimp only
+  by_cases hneg : off < 0
+  · simp only [hneg, if_true]
+    have hv : -(((off.natAbs / 3600 : Nat) : Int) * 3600 + ((off.natAbs / 60 % 60 : Nat) : Int) * 60) =
+        -((off.natAbs : Int) - (off.natAbs : Int) % 60) := by omega
+    rw [hv]
+    unfold Zoned.east_opt
+    rw [if_pos (by omega)]
+  · simp only [hneg, if_false]
+    have h45 : ¬ ((43 : Nat) = 45) := by decide
+    simp only [h45, if_false]
+    have hv : (((off.natAbs / 3600 : Nat) : Int) * 3600 + ((off.natAbs / 60 % 60 : Nat) : Int) * 60) =
+        ((off.natAbs : Int) - (off.natAbs : Int) % 60) := by omega
+    rw [hv]
+    unfold Zoned.east_opt
+    rw [if_pos (by omega)]
 
 end Chrono.Proofs.TextFormsMore
